@@ -646,3 +646,106 @@ def report(ctx: t.Any, prop: str, role: str, kmax: int, res: Result, id_base: in
             ctx.violation(k, e["what"], {"role": role, "K": kmax, "id_base": id_base, "history": [list(x) for x in e["history"]]}, e["count"])
     for sp in res.sample_paths[:3]:
         ctx.sample({"role": role, "history": sp})
+
+
+# ---------------------------------------------------------------------------------------
+# Long runs: a handful of structured LONG histories (many operations in flight, many cycles, large ids)
+# pushed through the same step()/monitors.  The BFS above is exhaustive for <= K requests; these runs
+# are its complement along a few designated deep paths (every step is still judged by the ghost).
+def _fifo(ids: t.List[int]) -> t.List[int]:
+    return list(ids)
+
+
+def _lifo(ids: t.List[int]) -> t.List[int]:
+    return list(reversed(ids))
+
+
+def _oddeven(ids: t.List[int]) -> t.List[int]:
+    return ids[1::2] + ids[0::2]
+
+
+def client_long_histories() -> t.Iterator[t.Tuple[str, t.List[Event]]]:
+    for n in (4, 9, 33):
+        for order_name, order in (("fifo", _fifo), ("lifo", _lifo), ("oddeven", _oddeven)):
+            h: t.List[Event] = []
+            nxt = 1
+            for cycle in range(3):
+                h.append(("call", "bind_simple" if cycle % 2 == 0 else "bind_sasl", -1))
+                bind_id = nxt
+                nxt += 1
+                if cycle % 2 == 1:
+                    h.append(("recv", "BindResp-sasl", bind_id))
+                    h.append(("call", "bind_sasl", -1))
+                    bind_id = nxt
+                    nxt += 1
+                h.append(("recv2" if cycle else "recv", "BindResp-ok", bind_id))
+                ops = []
+                for k in range(n):
+                    kind = "search" if k % 3 != 2 else "ext"
+                    h.append(("call", kind, -1))
+                    ops.append((nxt, kind))
+                    nxt += 1
+                h.append(("call", "bind_simple", -1))  # must be refused: operations outstanding
+                for i, kind in ops:
+                    if kind == "search":
+                        h += [("recv", "Entry", i), ("recv", "Ref", i), ("recv", "Entry-ctl", i)]
+                for i in order([i for i, _k in ops]):
+                    kind = dict(ops)[i]
+                    h.append(("recv", "Done-paged" if kind == "search" and i % 2 else "Done" if kind == "search" else "ExtResp-named", i))
+                    h.append(("recvpair", "Entry+Done", i))  # stale responses for a completed id must be fatal ... on a copy
+                yield f"client-{n}-{order_name}", h
+
+
+def server_long_histories() -> t.Iterator[t.Tuple[str, t.List[Event]]]:
+    idsets = {
+        "small": list(range(1, 34)),
+        "boundaries": [127, 128, 129, 255, 256, 32767, 32768, 65535, 65536, 2**31 - 2, 2**31 - 1, 2**31, 2**32, 2**63, 2**64 + 1],
+    }
+    for name, ids in idsets.items():
+        for order_name, order in (("fifo", _fifo), ("lifo", _lifo), ("oddeven", _oddeven)):
+            h: t.List[Event] = []
+            for cycle in range(2):
+                h.append(("recv", "BindReq", ids[0]))
+                h.append(("call", "bind_response-sasl", ids[0]))
+                h.append(("recv2", "BindReq", ids[1]))
+                h.append(("call", "entry", ids[1]))  # refused: BINDING
+                h.append(("call", "bind_response-ok", ids[1]))
+                for k, i in enumerate(ids[2:]):
+                    h.append(("recv" if k % 4 else "recvpeer", "SearchReq" if k % 3 != 2 else "ExtReq", i))
+                for k, i in enumerate(ids[2:]):
+                    if k % 3 != 2:
+                        h += [("call", "entry", i), ("call", "ref", i)]
+                for i in order(ids[2:]):
+                    k = ids[2:].index(i)
+                    h.append(("call", "done" if k % 3 != 2 else "ext_response", i))
+                    h.append(("call", "entry", i))  # refused: already answered
+            yield f"server-{name}-{order_name}", h
+
+
+def long_runs(role: str, known: t.Set[t.Tuple[str, str]], prop: str) -> t.Tuple[int, int, t.Dict[t.Tuple[str, str], t.Dict[str, t.Any]]]:
+    """-> (histories, steps, violations of prop).  A step that must be fatal (stale response) is tried on a copy."""
+    global ID_BASE
+    ID_BASE = 0
+    viols: t.Dict[t.Tuple[str, str], t.Dict[str, t.Any]] = {}
+    nh = steps = 0
+    gen = client_long_histories() if role == "client" else server_long_histories()
+    for name, hist in gen:
+        nh += 1
+        s = new_session(role)
+        g = g0(role)
+        done: t.List[Event] = []
+        for ev in hist:
+            steps += 1
+            s2, g2, rec, viol = step(role, s, g, ev, 10**9)
+            done.append(ev)
+            for p, k, w in viol:
+                if p == prop and (p, k) not in known:
+                    e = viols.get((p, k))
+                    if e is None:
+                        viols[(p, k)] = {"what": f"[long run {name}, step {len(done)}] {w}", "history": list(done), "count": 1}
+                    else:
+                        e["count"] += 1
+            if rec.post == S.CLOSED and rec.pre != S.CLOSED:
+                continue  # a fatal step (expected for stale responses): the run goes on from the state before it
+            s, g = s2, g2
+    return nh, steps, viols
